@@ -141,11 +141,22 @@ def oracle(spec, res):
         own_deadline = None if to is None else t0 + to
         # deadlines of enclosing handlers that were awaiting when this one entered
         enclosing = []
+        enclosing_who = []
         for (a2, b2, bus2, h2, ev2, who2) in ivs:
             if who2 != who and a2 < a and (b2 is None or a < b2) and tr.awaiting(who2, a) is not None:
                 to2 = _timeout_of(spec, ev2)
                 if to2 is not None:
                     enclosing.append(enter_t[who2] + to2)
+                    enclosing_who.append((who2, enter_t[who2] + to2))
+        # a handler cut short by the deadline of an enclosing (awaiting) handler: that enclosing handler must itself stop at that deadline
+        ex0 = exit_rec.get(who)
+        if ex0 is not None and ex0[5] == 'cancelled' and not spec['params'].get('slow') and not (own_deadline is not None and abs(ex0[1] - own_deadline) <= EPS):
+            for who2, d2 in enclosing_who:
+                if abs(ex0[1] - d2) <= EPS:
+                    e2 = exit_rec.get(who2)
+                    if e2 is None or e2[5] != 'cancelled' or abs(e2[1] - d2) > EPS:
+                        out.append(V('handler_survived_its_own_deadline', f'{who} was cancelled at {ex0[1]} by the deadline of {who2}, but {who2} itself ended {e2[5] if e2 else "never"} at {e2[1] if e2 else None}',
+                                     inline_await=inline))
         ex = exit_rec.get(who)
         slow = bool(spec['params'].get('slow'))
         if slow and ex is not None:
